@@ -229,6 +229,26 @@ def run(prop, tier):
                     rid += 1
                 npairs += 1
         cov["paired_runs"] += npairs
+    # --- a scenario on a derivative parameter (its function gives the rate of change): unchanged before Y, the scenario values from Y on
+    try:
+        from . import props_c13 as P13
+
+        Pg, psg, _pgg = P13.gen_project(at, 0.25)
+        baseg = Pg.run_sim(psg, store_results=False)
+        for Y in (2004.0, 2003.0 + 0.25 / 2):
+            scen = at.ParameterScenario(name="s", interpolation="previous")
+            scen.add("dv", "p0", [Y], [0.3])
+            rg = Pg.run_sim(scen.get_parset(psg, Pg), store_results=False)
+            lab = dict(model="generated (derivative parameter)", intervention="parameter scenario on a derivative parameter", par="dv", Y=Y)
+            rid = pair(records, index, rid, lab, rg, baseg, Y)
+            vals = np.asarray(rg.model.get_pop("p0").get_par("dv").vals, dtype=float)
+            idx = [k for k in range(len(rg.model.t) - 1) if rg.model.t[k] >= Y]
+            records.append(dict(id=rid, tol="1e-12", a=FX.fixseq(np.nan_to_num(vals[idx], nan=-1.0)), b=FX.fixseq(np.full(len(idx), 0.3))))
+            index[rid] = dict(label=dict(lab, intervention="parameter scenario on a derivative parameter: values from Y on"), key="P:p0/dv", values=[float(x) for x in vals[idx][:4]], scenario=0.3)
+            rid += 1
+            cov["paired_runs"] += 1
+    except Exception as ex:
+        V.violation("C09 scenario on a derivative parameter raised %s" % type(ex).__name__, dict(error=str(ex)[:300]))
     bad, states = C.validate_batch(["Big", "PairTrace"], "PairTrace", records, ndjson=True, timeout=3000)
     cov["states"] += states
     cov["transitions"] += states
